@@ -184,3 +184,20 @@ def run_cli(args, env=None, timeout=60, cwd=None, preexec=None, stdin=subprocess
         return dict(rc=p.returncode, out=p.stdout.decode(errors='replace'), err=p.stderr.decode(errors='replace'), wall=time.time() - t0, timeout=False)
     except subprocess.TimeoutExpired as e:
         return dict(rc=None, out=(e.stdout or b'').decode(errors='replace'), err=(e.stderr or b'').decode(errors='replace'), wall=time.time() - t0, timeout=True)
+
+
+_NOBODY = None
+
+
+def nobody_can_run():
+    """can uid 65534 execute the CLI binary (it cannot when /verif lives under a directory it may not traverse)?"""
+    global _NOBODY
+    if _NOBODY is None:
+        def pre():
+            os.setgroups([]); os.setgid(65534); os.setuid(65534)
+        try:
+            p = subprocess.run([C.CLI_BIN, '--version'], capture_output=True, timeout=30, preexec_fn=pre)
+            _NOBODY = p.returncode == 0
+        except Exception:
+            _NOBODY = False
+    return _NOBODY
